@@ -84,13 +84,14 @@ func ftoa(d float64, mode int, biasUp bool, ndigits int, buf []byte) ([]byte, in
 	} else {
 		/* d is denormalized */
 		i = bbits + be + (bias + (p - 1) - 1)
-		var x uint64
+		var x uint32
 		if i > 32 {
-			x = uint64(word0)<<(64-i) | uint64(word1)>>(i-32)
+			x = word0<<(64-i) | word1>>(i-32)
 		} else {
-			x = uint64(word1) << (32 - i)
+			x = word1 << (32 - i)
 		}
-		d2 = setWord0(float64(x), uint32((x>>32)-31*exp_mask))
+		d2 = float64(x)
+		d2 = setWord0(d2, _word0(d2)-31*exp_msk1) /* adjust exponent */
 		i -= (bias + (p - 1) - 1) + 1
 		denorm = true
 	}
